@@ -46,7 +46,7 @@ def run(ck):
         # quick: the SIMD builds get the static-state audit and one workload run (their kernels may hold state the scalar build lacks)
         for T, R in (((2, 3), (8, 3), (16, 2)) if backend == "serial" or not q else ((4, 2),)) + (() if q else ((16, 20), (4, 50))):
             rc, o, e = vf.run_io([exe, str(T), str(R)], "", timeout=600); runs += 1
-            if rc != 0 or "CHANGED" in o or "CORRUPTED" in o or any(x.split("=")[1].split("/")[0] != x.split("/")[1] for x in o.split() if x.startswith("ok=")):
+            if rc != 0 or "CHANGED" in o or "CORRUPTED" in o or "INCONSISTENT" in o or any(x.split("=")[1].split("/")[0] != x.split("/")[1] for x in o.split() if x.startswith("ok=")):
                 fails.append(("threads vs sequential (%s build)" % backend, "h_conc %d %d" % (T, R), (o.strip() + " " + e[-300:])[:400]))
     tx, out = (True, "") if aux else build(["-fsanitize=thread", "-g"], "h_conc_tsan")
     if aux: pass
@@ -70,14 +70,14 @@ def run(ck):
                     fails.append(("ThreadSanitizer (shared-payload handles)", "h_conc_tsan %d %d 2" % (T, R), rep[rep.find("WARNING"):][:900])); break
     ck.stream("workload runs: threads x rounds, digests vs sequential, tables hashed before/after", runs, max(2, runs))
     ck.stream("static-state audit: writable nfl symbols of the linked harness", 1, 2)
-    ck.samples = ["h_conc 8 3 (poly<u16,64,2>, poly<u32,256,3>, poly<u64,128,2>: construct, +,-, ntt, *, shoup, ==, !=, invntt, poly2mpz, mpz2poly, serialise, deserialise, poly_p)"]
+    ck.samples = ["h_conc 8 3 (poly<u16,64,2>, poly<u32,256,3>, poly<u64,128,2>: construct (also by every random distribution), +,-, ntt, *, shoup, ==, !=, invntt, poly2mpz, mpz2poly, serialise, deserialise, poly_p)"]
     for s, l, v in fails[:3]:
         ck.violation("%s: %s (%s)" % (s, v[:500], l), {"stream": s, "command": l, "what": v}, tag="conc")
     if not fails and not ck.proof["ok"]:
         ck.violation("proof obligation no longer checks: %s" % ck.proof["broken"], {"broken_obligation": ck.proof["broken"]}, tag="obligation", no_input=True)
     ck.assumptions = ["an actual data race (C++ memory model) can only be observed at run time: ThreadSanitizer on the workload is supporting evidence, not a proof",
                       "the model's footprint claim (operations write only their own objects) is what the static-state audit and the table digests check on the binary",
-                      "random sampling is excluded here (shared generator: C18)"]
+                      "randomly built polynomials are checked for canonical, CRT-consistent residues under concurrent sampling (thread-private polynomial and Gaussian sampler); the shared byte generator itself is C18"]
     return ck.finish(trusted=["coqc 8.16.1 kernel", "nm (binutils) symbol audit", "ThreadSanitizer", "h_conc.cpp"], extra_cov={"partial": "determinism proved for the model; footprint audited on the binary"})
 
 def replay(ck, rec):
